@@ -574,6 +574,68 @@ def checkEq (prop : String) (ans : Fields) : Verdict :=
   let v := v.add (a == b) s!"S:{prop}"
   v.add (!((a.splitOn "PANIC").length > 1 || (b.splitOn "PANIC").length > 1)) "S:C07"
 
+def parseSeqs (s : String) : List IRSeq :=
+  (splitList s "|").filterMap (fun q =>
+    match q.splitOn "," with
+    | [rs, sos, eos] =>
+      match BidiClass.ofName? sos, BidiClass.ofName? eos with
+      | some a, some b =>
+        some { runs := (splitList rs "+").filterMap (fun r =>
+                 match (r.splitOn ":").map String.toNat? with
+                 | [some x, some y] => some (x, y)
+                 | _ => none), sos := a, eos := b }
+      | _, _ => none
+    | _ => none)
+
+/-- Stage-level correspondence through the cfg-guarded hooks: every stage function of the Model is fed the
+    crate's own output of the previous stage and compared with the crate's output of that stage. -/
+def checkStage (f : Fields) (ans : Fields) (panicked : Bool) (raw : String) : Verdict :=
+  let enc := getF f "enc"
+  let tcp := hexList (getF f "T")
+  let ds := parseDs (getF f "DS")
+  let t0 := mkText enc tcp
+  let v : Verdict := { stats := s!"n={t0.segs.length} units={t0.len}" }
+  if panicked then v.add false "S:C07"
+  else if raw.trimAscii.toString == "EMPTY" then v
+  else if raw.trimAscii.toString == "NOHOOKS" then v.add false "M:nohooks"
+  else
+    let pr := parseRuns (getF ans "PR")
+    let (a, b) := pr.headD (0, 0)
+    let t := t0.subrange a b
+    let pl := (getF ans "PL").toNat?.getD 0
+    let ocs := classList (getF ans "C")
+    let hasIso := getF ans "HASISO" == "1"
+    let xl := natList (getF ans "XL")
+    let xp := classList (getF ans "XP")
+    let xr := parseRuns (getF ans "XR")
+    let sq := parseSeqs (getF ans "SQ")
+    let ws := (splitList (getF ans "W") ";").map classList
+    let ns := (splitList (getF ans "N") ";").map classList
+    let fl := natList (getF ans "FL")
+    -- explicit
+    let ex := explicitCompute t pl ocs
+    let v := v.add (ex.levels == xl && ex.pcs == xp && ex.runs == xr && ex.err.isNone) "M:st-explicit"
+    -- sequences, from the crate's explicit output
+    let (ms, e1) := isolatingRunSequences pl ocs xl xr hasIso
+    let v := v.add (ms == sq && e1.isNone) "M:st-seq"
+    -- weak / neutral per sequence, each from the crate's previous snapshot
+    let charLenAt := fun i => (t.charAt i).map (·.len)
+    let rec go (k : Nat) (prev : List BidiClass) (seqs : List IRSeq) (v : Verdict) : Verdict :=
+      match seqs with
+      | [] => v
+      | seq :: rest =>
+        let w := ws.getD k []
+        let n := ns.getD k []
+        let v := v.add (resolveWeak charLenAt seq prev == w) "M:st-weak"
+        let (mn, e) := resolveNeutral ds t seq xl ocs w
+        let v := v.add (mn == n && e.isNone) "M:st-neutral"
+        go (k + 1) n rest v
+    let v := go 0 xp sq v
+    let lastPcs := (ns.getLast?).getD xp
+    let (ml, e3) := resolveLevels lastPcs xl
+    let v := v.add (ml == fl && e3.isNone) "M:st-levels"
+    { v with stats := v.stats ++ s!" seqs={sq.length} runs={xr.length}" }
+
 def processLine (line : String) : Option String :=
   let line := line.trimAscii.toString
   if line.isEmpty || !line.startsWith "#" then none
@@ -594,6 +656,7 @@ def processLine (line : String) : Option String :=
         | "line" => checkLine f ans panicked
         | "rv" => checkRv f ans
         | "basedir" => checkBaseDir f ans panicked
+        | "stage" => checkStage f ans panicked a
         | "u16" => checkU16 f ans panicked
         | "lvl" => checkLvl f ans panicked
         | "u8" => checkU8 f ans
